@@ -112,6 +112,14 @@ class Core:
         r = self.rng
         c = r.random()
         ind = '    '
+        if c < 0.03 and in_func:
+            # annotated locals: the annotation of a local is not evaluated; a value-less one only makes the name local
+            if r.random() < 0.7:
+                e, t = self.any_expr(env)
+                v = self.fresh('l')
+                env[v] = t
+                return ['%s: %s = %s' % (v, r.choice(['int', 'str', 'object', "'forward'", 'undefined_name']), e)]
+            return ['%s: %s' % (self.fresh('l'), r.choice(['int', 'str']))]
         if c < 0.22:
             e, t = self.any_expr(env)
             targets = [v for v, tt in env.items() if tt == t and not v.startswith('p_') and not v.startswith('k')] if r.random() < 0.5 else []
